@@ -36,7 +36,7 @@ import (
 
 type c14Shape struct {
 	csrcMax, extKind, padMax, payMin, payMax int // extKind: 0 none, 1 random mix
-	anyPT                                     bool
+	anyPT                                    bool
 }
 
 // c14Packet builds one canonical marshalled RTP packet.
